@@ -69,10 +69,39 @@ def duplicates(ctx, ex):
     return n
 
 
+def foreign_levels(ctx, ex):
+    """bound(..) written on a helper attribute that does NOT affect the trait (it belongs to a co-derived one) is not a level of that trait's
+    resolution, with or without key / by next to it: where-clause(T | list with the co-derived trait, item with its attribute) ==
+    where-clause(T alone | item without it)"""
+    CASES = [("Eq", 2, "PartialEq", "struct X<T>(#[partial_eq(bound())] #[eq(key = kf(&$), bound(T: M1))] Option<T>);", "struct X<T>(#[eq(key = kf(&$), bound(T: M1))] Option<T>);"),
+             ("Eq", 2, "PartialEq", "struct X<T> { #[partial_eq(by = g, bound(T: M0))] #[eq(by = h, bound(T: M1, ..))] a: Option<T>, #[partial_eq(bound(T: M2))] b: Vec<T> }", "struct X<T> { #[eq(by = h, bound(T: M1, ..))] a: Option<T>, b: Vec<T> }"),
+             ("Eq", 2, "PartialEq, PartialOrd", "enum X<T> { A(#[partial_ord(bound())] #[ord(key = kf(&$), bound(T: M1, ..))] Option<T>), B { #[partial_eq(bound(T: M2))] #[eq(bound(T: M3, ..))] b: T } }", "enum X<T> { A(#[ord(key = kf(&$), bound(T: M1, ..))] Option<T>), B { #[eq(bound(T: M3, ..))] b: T } }"),
+             ("Ord", 1, "PartialOrd, Eq, PartialEq", "struct X<T>(#[partial_ord(bound())] #[eq(bound(T: M0))] #[ord(by = f, bound(T: M1, ..))] Option<T>, T);", "struct X<T>(#[ord(by = f, bound(T: M1, ..))] Option<T>, T);"),
+             ("Hash", 1, "PartialEq, Eq", "struct X<T> { #[partial_eq(bound())] #[eq(key = kf(&$), bound(T: M1, ..))] #[hash(bound(T: M2, ..))] a: Option<T> }", "struct X<T> { #[eq(key = kf(&$), bound(T: M1, ..))] #[hash(bound(T: M2, ..))] a: Option<T> }"),
+             ("PartialOrd", 1, "PartialEq", "struct X<T>(#[partial_eq(bound())] #[partial_ord(key = kf(&$), bound(T: M1, ..))] Option<T>);", "struct X<T>(#[partial_ord(key = kf(&$), bound(T: M1, ..))] Option<T>);")]
+    n = 0
+    for main, k, co, with_attr, plain in CASES:
+        for lst in ("%s, %s" % (main, co),):
+            for entry in ("attr", "derive"):
+                def impls(args, item):
+                    r = ex.attr(args, item) if entry == "attr" else ex.derive("#[derive_ex(%s)] %s" % (args, item))
+                    if r["status"] != "ok" or r.get("items") is None:
+                        return None
+                    its = r["items"][(1 if entry == "attr" else 0):]
+                    return [sorted(BF.norm(p) for p in i.get("where", [])) for i in its[:k] if i["kind"] in ("impl", "const")] if len(its) >= k and all(i["kind"] != "compile_error" for i in its[:k]) else None
+                tog, alone = impls(lst, with_attr), impls(main, plain)
+                n += 2
+                if tog is None or alone is None or tog != alone:
+                    ctx.violation("B:C04:foreign-level:%s:%s:%s" % (lst, entry, with_attr), "a bound(..) on a helper attribute of a co-derived trait changes the where-clause of %s" % main,
+                                  {"layer": "B", "item": with_attr, "args": lst, "entry": entry, "plain_item": plain, "where_in_list": tog, "where_alone_on_plain_item": alone})
+    return n
+
+
 def run(ctx):
     ex = Expander()
     n, nontriv, samples = bounded(ctx, ex, 60 if ctx.quick else 3000)
     n += duplicates(ctx, ex)
+    n += foreign_levels(ctx, ex)
     ex.close()
     g = glayer.run_g(ctx, G_UNITS)
     ctx.assumptions += [
